@@ -34,6 +34,17 @@ def setup():
     okb, out, dt = C.lake_build([], timeout=7000)
     print(out[-3000:])
     print(f'lake build: {"ok" if okb else "FAILED"} in {dt:.0f}s')
+    # separately built proof modules (not imported by Femio.lean so that their failure cannot take the library down):
+    # the symbolic kernel tie of C11 (harness/gen_kernels.py -> Gen/Kernels.lean -> Props/KernelTie.lean)
+    try:
+        from . import gen_kernels
+        gen_kernels.generate()
+        okk, outk, dtk = C.lake_build(['Femio.Props.KernelTie'], timeout=3000)
+        print(f'lake build Femio.Props.KernelTie: {"ok" if okk else "FAILED"} in {dtk:.0f}s')
+        if not okk:
+            print(outk[-1500:])
+    except Exception as e:  # best effort: the C11 check builds it itself and reports what breaks
+        print('kernel tie: not built during setup:', repr(e))
     return 0 if okb else 1
 
 
@@ -89,6 +100,17 @@ def run_check(prop, tier, seed):
         else:
             for name in mod.THEOREMS:
                 obligations.append((f'theorem:{name}', False, 'library did not build'))
+        # 3b. optional: proof obligations of the property that are generated / built / audited SEPARATELY from LEAN_MODULES
+        #     (so that a failure there cannot take the other modules or the driver down), e.g. C11's symbolic kernel tie:
+        #     mod.EXTRA_OBLIGATIONS(ctx) -> [(name, ok, detail)]
+        if hasattr(mod, 'EXTRA_OBLIGATIONS'):
+            try:
+                obligations += [tuple(o) for o in mod.EXTRA_OBLIGATIONS(ctx)]
+            except C.Timeout:
+                raise
+            except Exception as e:
+                obligations.append(('tie:extra-obligations', False, traceback.format_exc()[-1500:]))
+                ctx.notes.append(f'EXTRA_OBLIGATIONS raised {e!r}')
         # 4. correspondence + oracle
         if driver_ok:
             try:
@@ -186,7 +208,7 @@ def run_check(prop, tier, seed):
                            + (' && lake env leanchecker ' + ' '.join(mod.LEAN_MODULES) if tier == 'thorough' else ''),
             'trusted_base': C.TRUSTED_BASE + list(getattr(mod, 'TRUSTED', [])),
             'obligation_list': [{'name': o[0], 'ok': o[1], 'detail': o[2]} for o in obligations],
-            'theorems': list(mod.THEOREMS),
+            'theorems': list(mod.THEOREMS) + list(getattr(mod, 'EXTRA_THEOREMS', [])),
             'partial': list(getattr(mod, 'PARTIAL', [])),
             'evaluations': ctx.evaluations, 'distinct_nontrivial': len(ctx.distinct),
             'rule': getattr(mod, 'RULE', ''),
